@@ -8,12 +8,12 @@ cd $WT && git checkout -q -- . && git status --short | head -3
 echo "== clean: demo"; (cd $WT && PYTHONPATH=$WT /venv/bin/python -W ignore $OUT/demo$N.py > /tmp/seed/$P.demo_clean.txt 2>&1; echo "exit $?"; tail -2 /tmp/seed/$P.demo_clean.txt | cut -c1-200)
 git -C $WT apply $OUT/change$N.diff || { echo "PATCH DOES NOT APPLY"; exit 2; }
 echo "== changed: pinned tests"; (cd $WT && /venv/bin/python -m pytest -q -p no:cacheprovider --timeout=900 2>&1 | tail -1)
-echo "== changed: tests from tests/"; (cd $WT/tests && /venv/bin/python -m pytest -q -p no:cacheprovider --timeout=900 2>&1 | tail -1)
+echo "== changed: tests from tests/"; (cd $WT/tests && PYTHONPATH=$WT /venv/bin/python -m pytest -q -p no:cacheprovider --timeout=900 2>&1 | tail -1)
 echo "== changed: demo"; (cd $WT && PYTHONPATH=$WT /venv/bin/python -W ignore $OUT/demo$N.py > /tmp/seed/$P.demo_changed.txt 2>&1; echo "exit $?"; tail -3 /tmp/seed/$P.demo_changed.txt | cut -c1-300)
 # our checks against the scratch worktree with the patch applied (PYTOUGH_REPO); /repo itself is
 # not touched while other work is running against it
 for C in $CHECKS; do
   echo "== our check $C (quick) with the change applied"
-  (cd /verif && PYTOUGH_REPO=$WT VERIF_OUT_DIR=/tmp/seed/out_${P}_${N} timeout 3000 ./check $C --tier quick 2>&1 | grep -v "^KNOWN" | tail -4 | cut -c1-400; echo "check exit ${PIPESTATUS[0]}")
+  (cd /verif && PYTOUGH_REPO=$WT VERIF_OUT_DIR=/tmp/seed/out_${P}_${N} timeout 3000 ./check $C --tier quick > /tmp/seed/out_${P}_${N}.$C.txt 2>&1; E=$?; grep "^VIOLATION" /tmp/seed/out_${P}_${N}.$C.txt | head -4 | cut -c1-400; grep -v "^KNOWN\|^VIOLATION" /tmp/seed/out_${P}_${N}.$C.txt | tail -3 | cut -c1-400; echo "check exit $E")
 done
 git -C $WT checkout -q -- .
